@@ -92,6 +92,8 @@ class Gen:
         self.K = set()
         self.lines = []
         self.bodies = {}
+        # program mode: owning functors XOR connecting empty slots (docs/LANGUAGE.md)
+        self.owners = bool(prof.specs.get("ownT", 0) or prof.specs.get("ownK", 0)) and rng.chance(0.5)
 
     # --- helpers
     def pick(self, pool, n, want_alive, alive_p=0.9):
@@ -109,7 +111,7 @@ class Gen:
         return "V" if fl in ("V", "TV") else "I"
 
     def spec(self, want_void=None, level=None):
-        kinds = [(k, w) for k, w in self.p.specs.items() if w > 0]
+        kinds = [(k, w) for k, w in self.p.specs.items() if w > 0 and (self.owners or k not in ("ownT", "ownK"))]
         k = self.r.weighted(kinds)
         fid = self.r.below(self.p.nF)
         if k == "fn":
@@ -313,7 +315,7 @@ class Gen:
                                                            "connfn": 2 if p.w.get("connfn") else 0}.items()} or p.w))
         n = p.len[0] + r.below(p.len[1] - p.len[0] + 1)
         for _ in range(n):
-            if r.chance(p.empty_slot_connect) and self.G and p.w.get("conn"):
+            if not self.owners and r.chance(p.empty_slot_connect) and self.G and p.w.get("conn"):
                 # connect an empty / invalidated slot (K1/F2 territory): mkS0 + conn
                 i = self.pick(self.S, p.nS, False)
                 g = self.pick(self.G, p.nG, True)
@@ -343,7 +345,7 @@ class Gen:
             if r.chance(p.body_prob):
                 ln = p.body_len[0] + r.below(p.body_len[1] - p.body_len[0] + 1)
                 self.bodies[fid] = [self.one(p.bw, in_body=True) for _ in range(ln)]
-        out = ["maxdepth %d" % p.maxdepth]
+        out = ["maxdepth %d" % p.maxdepth] + (["owners"] if self.owners else [])
         for fid, b in sorted(self.bodies.items()):
             out.append("body %d" % fid)
             out += ["  " + l for l in b]
